@@ -128,7 +128,7 @@ class Run:
         if not src:
             return None, 'no native replay driver for this unit'
         exe = build_native(unit, inst, self.wd, src, 'replay_' + check.name, sanitize=True)
-        args = fmt_inputs(inputs) + ['obl=' + obl]
+        args = fmt_inputs(inputs) + ['obl=' + obl, 'check=' + check.name, 'unit=' + unit.name]
         rc, out, err, _ = sh([exe] + args, timeout=300, mem_kb=None)
         txt = (out + err).strip()
         if rc == 1 or 'ERROR: AddressSanitizer' in txt or 'runtime error:' in txt:
